@@ -98,6 +98,11 @@ func seqCases(prop, tier string, seed uint64) []Case {
 	if prop == "C13" || prop == "C12" {
 		cases = append(cases, shapeCases(prop, tier, cfgs)...)
 	}
+	if prop == "C02" {
+		// scale: one file whose length needs more than 31 bits (create, sparse write, close, stat, positioned reads, rebuild)
+		pb, _ := json.Marshal(handP{Cfg: Cfg{Level: "fastest", RS: 20, WC: "file"}, Init: -1, Giant: int64(1)<<31 + 1025})
+		cases = append(cases, Case{ID: "c02-giant", Seed: 3, Kind: "giant", P: pb})
+	}
 	for i := 0; i < n; i++ {
 		cfg := cfgs[i%len(cfgs)]
 		st := steps/2 + r.Intn(steps/2+1)
@@ -664,15 +669,26 @@ func genOptsFor(prop string, cfg Cfg, comps []string) GenOpts {
 		o.Batched, o.BiasMoves = true, true
 	case "C12":
 		o.BiasMoves = true
+		o.Batched = true // Operations.Move / Delete are the CLI's entry points to the same subtree logic
 		o.MaxLen = 600
 	case "C13":
 		o.Counts = true
+		o.Batched = true
 		o.MaxLen = 600
 	}
 	return o
 }
 
 func seqRun(prop, tier string, c Case, w *Worker) (res Result) {
+	if c.Kind == "giant" {
+		var hp handP
+		_ = json.Unmarshal(c.P, &hp)
+		res = giantRun(hp, c, w)
+		if res.Verdict == "violation" {
+			res.Sig = strings.ToLower(prop) + "|" + strings.TrimPrefix(res.Sig, "c14|")
+		}
+		return
+	}
 	var p seqP
 	_ = json.Unmarshal(c.P, &p)
 	cfg := p.Cfg
